@@ -106,3 +106,31 @@ Theorem C11_termination_premises_nonvacuous :
   q 1 < 1 /\ 1 / 60 < 1 * exp (ln (q 1) / 1).
 Proof. exact LC11c.contract_premises_example. Qed.
 Print Assumptions C11_termination_premises_nonvacuous.
+
+(* the shape premise of the power-limited clause, discharged from the TABLE: if the QP table starts at flow 0 (or
+   below), has at least two points, and its powers are positive, increasing, with elasticity at most 3 at the left end
+   of every segment ([segs_ok]: a decidable condition on the table's numbers), then for every positive flow, trim,
+   set speed, density and nameplate power the power-limited search never leaves (0, set speed] *)
+From DHV Require Import LPumpShape LPumpsShipped ExamplePumps.
+Theorem C11_power_limited_not_above_set_by_shape : forall (p : pump (T:=R)) (Q : R) (w : bool) (x0 y0 : R) (tl : list (R * R)),
+  QP p = (x0, y0) :: tl -> x0 <= 0 -> tl <> [] -> segs_ok (QP p) ->
+  0 < design_speed p -> 0 < design_impeller p -> 0 < current_impeller p -> 0 < rho p w -> 0 < Q ->
+  forall (fuel : nat) (r : R), 0 < current_speed p -> 0 < avail_power p ->
+  find_power_limited_speed RN fuel p Q w = Some r -> 0 <= r <= current_speed p.
+Proof. exact LPumpShape.power_limited_not_above_shape. Qed.
+Print Assumptions C11_power_limited_not_above_set_by_shape.
+
+(* ... and the shipped ladder pump and main pump have that shape (their tables are regenerated from
+   DHLLDV_viewer/ExamplePumps.py on every run and compared number by number with the objects the module builds) *)
+Theorem C11_shipped_pumps : forall (p : pump (T:=R)) (Q : R) (w : bool) (fuel : nat) (r : R),
+  QP p = Ladder_Pump_QP RN \/ QP p = Main_Pump_QP RN ->
+  0 < design_speed p -> 0 < design_impeller p -> 0 < current_impeller p -> 0 < rho p w -> 0 < Q ->
+  0 < current_speed p -> 0 < avail_power p ->
+  find_power_limited_speed RN fuel p Q w = Some r -> 0 <= r <= current_speed p.
+Proof. exact LPumpsShipped.shipped_power_limited_not_above. Qed.
+Print Assumptions C11_shipped_pumps.
+
+(* the two smaller shipped pumps do not: their power falls from shut-off to the first positive flow *)
+Theorem C11_small_pumps_not_rising : ~ segs_ok (Ladder_Pump600_QP RN) /\ ~ segs_ok (Main_Pump500_QP RN).
+Proof. exact (conj LPumpsShipped.Ladder_Pump600_QP_not_rising LPumpsShipped.Main_Pump500_QP_not_rising). Qed.
+Print Assumptions C11_small_pumps_not_rising.
